@@ -1,0 +1,90 @@
+//go:build verif
+
+package vm
+
+// Machine-checked contracts for package vm (see /verif/DESIGN.md).
+// This file contains no declarations: it only carries specification comments
+// that the elkvc verification-condition generator reads.
+
+/*@
+// ==== the value stack ===================================================================
+// vm.sp / vm.fp are raw addresses into the backing array of vm.stack.
+// soff/foff: the slot indices they denote; wfStack: they denote slots, fp below sp, and
+// the last slot (the sentinel) is never used.
+spec fn sbase(vm *Thread) int = sliceptr(vm.stack)
+spec fn soff(vm *Thread) int = ediv(vm.sp - sbase(vm), 24)
+spec fn foff(vm *Thread) int = ediv(vm.fp - sbase(vm), 24)
+spec fn wfStack(vm *Thread) bool = vm != nil && len(vm.stack) >= 1 && len(vm.stack) == cap(vm.stack) && sbase(vm) > 0 && emod(vm.sp - sbase(vm), 24) == 0 && emod(vm.fp - sbase(vm), 24) == 0 && 0 <= foff(vm) && foff(vm) <= soff(vm) && soff(vm) <= len(vm.stack) - 1
+// slot(vm, k): the value in stack slot k
+spec fn slot(vm *Thread, k int) value.Value = load(value.Value, sbase(vm) + 24 * k)
+
+func (*Thread).push
+  props C10 C01
+  requires wfStack(vm) && soff(vm) < len(vm.stack) - 1
+  ensures wfStack(vm) && soff(vm) == old(soff(vm)) + 1 && vm.fp == old(vm.fp) && vm.stack == old(vm.stack)
+  ensures top: slot(vm, soff(vm) - 1) == val
+  ensures rest: forall k int :: 0 <= k && k < len(vm.stack) && k != old(soff(vm)) ==> slot(vm, k) == old(slot(vm, k))
+
+func (*Thread).pop
+  props C10 C01
+  requires wfStack(vm) && soff(vm) >= 1
+  ensures wfStack(vm) || soff(vm) < foff(vm)
+  ensures sp: soff(vm) == old(soff(vm)) - 1 && vm.fp == old(vm.fp) && vm.stack == old(vm.stack)
+  ensures rest: forall k int :: 0 <= k && k < soff(vm) ==> slot(vm, k) == old(slot(vm, k))
+
+func (*Thread).popGet
+  props C10 C01 C08
+  requires wfStack(vm) && soff(vm) >= 1
+  ensures ret == old(slot(vm, soff(vm) - 1))
+  ensures sp: soff(vm) == old(soff(vm)) - 1 && vm.fp == old(vm.fp) && vm.stack == old(vm.stack)
+  ensures rest: forall k int :: 0 <= k && k < soff(vm) ==> slot(vm, k) == old(slot(vm, k))
+
+func (*Thread).peek
+  props C10 C01 C08
+  requires wfStack(vm) && soff(vm) >= 1
+  assigns nothing
+  ensures ret == slot(vm, soff(vm) - 1)
+
+func (*Thread).peekAt
+  props C10 C01 C08
+  requires wfStack(vm) && 0 <= n && n < soff(vm)
+  assigns nothing
+  ensures ret == slot(vm, soff(vm) - 1 - n)
+
+func (*Thread).replace
+  props C10 C01 C08
+  requires wfStack(vm) && soff(vm) >= 1
+  ensures vm.sp == old(vm.sp) && vm.fp == old(vm.fp) && vm.stack == old(vm.stack)
+  ensures top: slot(vm, soff(vm) - 1) == val
+  ensures rest: forall k int :: 0 <= k && k < len(vm.stack) && k != soff(vm) - 1 ==> slot(vm, k) == old(slot(vm, k))
+
+func (*Thread).swap
+  props C10 C01
+  requires wfStack(vm) && soff(vm) >= 2
+  ensures vm.sp == old(vm.sp) && vm.fp == old(vm.fp) && vm.stack == old(vm.stack)
+  ensures slot(vm, soff(vm) - 1) == old(slot(vm, soff(vm) - 2)) && slot(vm, soff(vm) - 2) == old(slot(vm, soff(vm) - 1))
+  ensures rest: forall k int :: 0 <= k && k < soff(vm) - 2 ==> slot(vm, k) == old(slot(vm, k))
+
+func (*Thread).popSkipOne
+  props C10 C01
+  requires wfStack(vm) && soff(vm) >= 2
+  ensures soff(vm) == old(soff(vm)) - 1 && vm.fp == old(vm.fp) && vm.stack == old(vm.stack)
+  ensures top: slot(vm, soff(vm) - 1) == old(slot(vm, soff(vm) - 1))
+  ensures rest: forall k int :: 0 <= k && k < soff(vm) - 1 ==> slot(vm, k) == old(slot(vm, k))
+
+// pops n values keeping the one on top; every write stays inside the stack
+func (*Thread).popNSkipOne
+  props C10 C01 C14
+  requires wfStack(vm) && n >= 0 && n + 1 <= soff(vm)
+  ensures soff(vm) == old(soff(vm)) - n && vm.fp == old(vm.fp) && vm.stack == old(vm.stack)
+  ensures top: slot(vm, soff(vm) - 1) == old(slot(vm, soff(vm) - 1))
+  ensures rest: forall k int :: 0 <= k && k < soff(vm) - 1 ==> slot(vm, k) == old(slot(vm, k))
+  ensures inside: forall a int :: !(sbase(vm) <= a && a < sbase(vm) + 24 * len(vm.stack)) ==> load(value.Value, a) == old(load(value.Value, a))
+  loop 1
+    invariant vm.sp == old(vm.sp) && vm.fp == old(vm.fp) && vm.stack == old(vm.stack)
+    invariant old(soff(vm)) - n - 1 <= i && i <= old(soff(vm)) - 1
+    invariant forall k int :: 0 <= k && k < old(soff(vm)) - n - 1 ==> slot(vm, k) == old(slot(vm, k))
+    invariant slot(vm, old(soff(vm)) - n - 1) == old(slot(vm, soff(vm) - 1))
+    invariant forall a int :: !(sbase(vm) <= a && a < sbase(vm) + 24 * len(vm.stack)) ==> load(value.Value, a) == old(load(value.Value, a))
+    decreases i - (old(soff(vm)) - n - 1)
+@*/
